@@ -42,7 +42,7 @@ func checkC12Woven(env *engine.Env, c C12Case) engine.Outcome {
 	// one P: goroutines handed the baton share the per-P caches of sync.Pool, as
 	// goroutines multiplexed on one processor do
 	runtime.GOMAXPROCS(1)
-	docs := sharingConfigs(env)
+	docs := c12Docs(env)
 	text := docs[c.Config].YAML()
 	textOf := func(i int) string { return docs[c.configOf(i)].YAML() }
 	viol := func(sig, format string, a ...any) {
@@ -62,6 +62,12 @@ func checkC12Woven(env *engine.Env, c C12Case) engine.Outcome {
 	bound := 2
 	if env.Thorough() {
 		bound = 3
+	}
+	if c.Config == c12Large(env) {
+		bound = 0 // each execution packages 2 x 42 MiB
+		if env.Thorough() {
+			bound = 1
+		}
 	}
 	vrt.ResetContended()
 	outcomes := map[string]bool{}
